@@ -312,6 +312,16 @@ class Calls(object):
         pos = self.cx.func("dict_pos_%s" % nm, t.sort(self.cx), t.k.sort(self.cx), I)
         return SV(pos(d.e, ev.coerce_key(k, t.k).e), TInt())
 
+    def spec_dictkeyat(self, ev, node, st):
+        """dictkeyat(d, j): the key at position j of the iteration order of d (dict_iter axioms)"""
+        d, j = self._args(ev, node, st)
+        if isinstance(d.t, TOpt):
+            d = SV(d.t.get(self.cx, d.e), d.t.inner)
+        t = d.t
+        nm = t.name.replace("[", "_").replace("]", "_").replace(",", "_")
+        kf = self.cx.func("dict_keyat_%s" % nm, t.sort(self.cx), I, t.k.sort(self.cx))
+        return SV(kf(d.e, j.e), t.k)
+
     def spec_b2i(self, ev, node, st):
         (a,) = self._args(ev, node, st)
         return SV(z3.If(ev.truthy(a), 1, 0), TInt())
@@ -818,7 +828,15 @@ class Calls(object):
                     free.append(n.id)
         fvals = [ev.bound.get(nm) or st.env[nm] for nm in free]
         fvals = [v for v in fvals if not isinstance(v.t, TNone)]
-        sig = ast.dump(ast.Tuple(elts=[g.target, node.elt] + list(g.ifs), ctx=ast.Load()), annotate_fields=False, include_attributes=False)
+        # the function symbol is named by the comprehension's text up to renaming of its bound and captured variables
+        import copy
+        bn = [n.id for n in ast.walk(g.target) if isinstance(n, ast.Name)]
+        ren = dict([(nm, "_b%d" % i) for i, nm in enumerate(bn)] + [(nm, "_f%d" % i) for i, nm in enumerate(free)])
+        sig_tree = copy.deepcopy(ast.Tuple(elts=[g.target, node.elt] + list(g.ifs), ctx=ast.Load()))
+        for n in ast.walk(sig_tree):
+            if isinstance(n, ast.Name) and n.id in ren:
+                n.id = ren[n.id]
+        sig = ast.dump(sig_tree, annotate_fields=False, include_attributes=False)
         hname = hashlib.sha256(sig.encode()).hexdigest()[:10]
         rt = TSeq(el.t)
         ro = rt.ops(cx)
